@@ -69,6 +69,13 @@ var propSpecs = map[string]*PropSpec{
 		TrustedBase: []string{"(*os.File).ReadAt fills the buffer when the range lies inside the file; os.Stat reports the size of the file that is then read (no concurrent truncation)", "lexical confinement: strings.HasPrefix(filepath.Clean(...), root + separator); symbolic links under the asset root are the administrator's (not covered)", "servedBytes(name) is what the loader produced from the file when it read it (definitional; files changing on disk afterwards are outside the model)", "javascript.Minify / MinifyCSS are the documented minification (C33/C34)"},
 		Extra:       c39Extra,
 	},
+	"C21": {
+		Patterns:    []string{"./..."},
+		Level:       "proof",
+		Explanation: "tokens.Unwrap/Validate accept only a token that decrypts under the current key, has not expired and is not on the revocation list now; the revocation list operations (Blacklist, Delete, Flush, IsBlacklisted, IsIDBlacklisted) are under contract over the table's content (revokedAt at the current epoch) and preserve two coherence invariants: every entry of the revocation cache says what the table says, and no locally issued token held in the decrypted-token cache is revoked (and each carries its expiry); router Authenticate fills the token cache only with tokens that just unwrapped and on a cache hit re-checks expiry; with the invariants, a cached decision is the decision a fresh validation would make",
+		TrustedBase: []string{"the revocation table behind resources.ResHandle behaves as a keyed row set (anchored assumptions at Insert/Delete/Read say what the store did; C30)", "AES-GCM authenticity: 'issued by this server with its current key and not altered' is decryptsUnder (C27)", "removal of cache entries by expiry, eviction or purge preserves both invariants (they constrain entries that are present); caches.* contracts from C28", "configuration-time functions tokens.SetDatabasePath/Close are outside the histories considered", "remote-authority tokens (ego.server.authority set) are the authority's to expire and revoke"},
+		Extra:       c21Extra,
+	},
 	"C27": {
 		Patterns: []string{"./..."},
 		Level:    "proof",
